@@ -152,7 +152,9 @@ class World:
         there = {self.obj[x].uuid for x in self.subtree(ir) if x not in sub}
         return not (set(mine) & there)
 
-    def can_attach_all(self, cs, p):
+    def can_attach_all(self, cs, p, leaving=()):
+        """`leaving`: nodes the same operation takes out of the IR first
+        (the slots a list assignment replaces)."""
         ir = self.ir_of(p)
         if ir is None:
             return True
@@ -162,8 +164,19 @@ class World:
         mine = [self.obj[x].uuid for x in sub]
         if len(mine) != len(set(mine)):
             return False
-        there = {self.obj[x].uuid for x in self.subtree(ir) if x not in sub}
+        gone = set()
+        for c in leaving:
+            gone |= set(self.subtree(c))
+        there = {self.obj[x].uuid for x in self.subtree(ir)
+                 if x not in sub and x not in gone}
         return not (set(mine) & there)
+
+    def twins_of(self, x):
+        """Other nodes of x's kind carrying x's UUID (from loading a file
+        whose source is still alive)."""
+        u = self.obj[x].uuid
+        return [y for y in self.lids(self.kind[x])
+                if y != x and self.obj[y].uuid == u]
 
     # ---- node creation -------------------------------------------------
     def make(self, kind, parent=None, via_ctor=False, **extra):
@@ -554,13 +567,32 @@ class World:
         return repr(x)
 
     # ---- ir.modules: MutableSequence -----------------------------------
-    def op_list(self):
+    def op_twin_replace(self):
+        """ir.modules[i:j] = <the same modules from another load of the
+        file> (or one slot): every UUID stays unique in the IR."""
+        rnd = self.rnd
+        irs = [x for x in self.lids(["IR"]) if self.mods[x]]
+        if not irs:
+            return
+        a = rnd.choice(irs)
+        if not all(self.twins_of(x) for x in self.mods[a]):
+            before = len(self.lids(["IR"]))
+            if before >= 6:
+                return
+            self.op_load(src=a)
+            if len(self.lids(["IR"])) == before:
+                return
+        return self.op_list(force={"ir": a, "op": rnd.choice(
+            ["setslice", "setslice", "setitem"])})
+
+    def op_list(self, force=None):
         rnd, gt = self.rnd, self.gt
-        irl = rnd.choice(self.lids(["IR"]))
+        irl = force["ir"] if force else rnd.choice(self.lids(["IR"]))
+        twin_p = 1.0 if force else 0.25
         L = self.obj[irl].modules
         cur = list(self.mods[irl])
         n = len(cur)
-        op = rnd.choice(["append", "insert", "extend", "iadd", "delitem",
+        op = force["op"] if force else rnd.choice(["append", "insert", "extend", "iadd", "delitem",
                          "delslice", "setitem", "setslice", "pop", "pop_i",
                          "remove", "clear", "reverse", "index", "count",
                          "getslice", "contains", "iter", "reversed",
@@ -641,6 +673,12 @@ class World:
             fn = lambda T: T.__delitem__(s)
         elif op == "setitem":
             x, i = pick_mod(), rand_index()
+            if force:
+                i = rnd.randrange(-n, n)
+            if type(i) is int and -n <= i < n and rnd.random() < twin_p and \
+                    self.twins_of(cur[i]):
+                x = rnd.choice(self.twins_of(cur[i]))  # replace by its twin
+                self.ctx.count("c16:list_replace_by_twin")
             incoming, args = [x], {"i": jx(i)}
             fn = lambda T: T.__setitem__(i, self.obj[x])
         elif op == "setslice":
@@ -649,6 +687,17 @@ class World:
                 rnd.randint(0, 3))))
             if xs and rnd.random() < 0.15:
                 xs.insert(rnd.randint(0, len(xs)), rnd.choice(xs))  # twice
+            if force:
+                s = rnd.choice([slice(None), slice(None), slice(
+                    rnd.randint(0, n), None), slice(None, rnd.randint(0, n)),
+                    slice(None, None, -1), slice(None, None, 2)])
+            if rnd.random() < twin_p and cur[s] and all(
+                    self.twins_of(x) for x in cur[s]):
+                # the replaced modules' twins (another load of the same
+                # file), in any order
+                xs = [rnd.choice(self.twins_of(x)) for x in cur[s]]
+                rnd.shuffle(xs)
+                self.ctx.count("c16:list_replace_by_twin")
             wrap = rnd.choice(ARG_KINDS)
             incoming, args = xs, {"slice": [s.start, s.stop, s.step],
                                   "arg_kind": wrap[0]}
@@ -711,8 +760,20 @@ class World:
             klass = "value-already-in-same-list"
         elif any(self.parent[x] is not None for x in incoming):
             klass = "value-owned-by-other-ir"
+        leaving = []
+        if op in ("setitem", "setslice"):
+            try:
+                probe = list(cur)
+                if op == "setitem":
+                    leaving = [probe[i]]
+                else:
+                    leaving = list(probe[s])
+                    probe[s] = list(incoming)  # rejected: nothing leaves
+            except Exception:
+                leaving = []
+            leaving = [x for x in leaving if x not in incoming]
         if incoming and not self.can_attach_all(
-                [x for x in incoming if x not in cur], irl):
+                [x for x in incoming if x not in cur], irl, leaving):
             self.ctx.count("skipped:uuid-precondition")
             return
         self.log(op="list." + op, ir=irl, incoming=incoming, **args)
@@ -1109,12 +1170,13 @@ class World:
         return "attr"
 
     # ---- save -> load: the loaded IR joins the world -------------------
-    def op_load(self):
+    def op_load(self, src=None):
         gt, rnd = self.gt, self.rnd
         irs = self.lids(["IR"])
-        if len(irs) >= 5:
-            return
-        src = rnd.choice(irs)
+        if src is None:
+            if len(irs) >= 5:
+                return
+            src = rnd.choice(irs)
         o = self.obj[src]
         # a file needs self-contained references: symbols whose referent is
         # outside this IR would make load fail by design
@@ -1186,16 +1248,17 @@ class World:
 
 
 WEIGHTS = {
-    "C03": {"set_parent": 5, "set_mutation": 6, "list": 4, "ctor": 3,
+    "C03": {"twin_replace": 2, "set_parent": 5, "set_mutation": 6, "list": 4, "ctor": 3,
             "symbol": 1, "attr": 1, "load": 1, "set_query": 1,
             "pingpong": 3, "bulk": 1},
-    "C04": {"set_parent": 6, "set_mutation": 5, "list": 3, "ctor": 4,
+    "C04": {"twin_replace": 2, "set_parent": 6, "set_mutation": 5, "list": 3, "ctor": 4,
             "symbol": 1, "attr": 4, "load": 1, "set_query": 1,
             "pingpong": 3, "bulk": 1},
     "C10": {"set_parent": 4, "set_mutation": 4, "list": 2, "ctor": 3,
             "symbol": 8, "attr": 1, "load": 1, "set_query": 0,
             "pingpong": 6, "bulk": 0},
-    "C16": {"set_parent": 2, "set_mutation": 6, "list": 7, "ctor": 2,
+    "C16": {"twin_replace": 2, "set_parent": 2, "set_mutation": 6, "list": 7,
+            "ctor": 2,
             "symbol": 1, "attr": 1, "load": 0, "set_query": 6,
             "pingpong": 1, "bulk": 1},
 }
